@@ -153,9 +153,10 @@ def usable_points(keys):
 # injector
 # ---------------------------------------------------------------------------
 class Fault(object):
-  __slots__ = ('point', 'nth', 'when', 'exc', 'ident', 'calls', 'fired', 'active', 'tag')
+  __slots__ = ('point', 'nth', 'when', 'exc', 'ident', 'calls', 'fired', 'active', 'tag', 'conv_k',
+               'conv_base')
 
-  def __init__(self, point, nth, when, exc, ident=None, tag=None):
+  def __init__(self, point, nth, when, exc, ident=None, tag=None, conv_k=None):
     self.point = point
     self.nth = nth
     self.when = when
@@ -165,6 +166,10 @@ class Fault(object):
     self.fired = False
     self.active = True
     self.tag = tag
+    # conv_k: only the k-th conversion (pipeline entry) after arming counts, e.g.
+    # k=2 aims at the first callee converted from inside a converted caller
+    self.conv_k = conv_k
+    self.conv_base = None
 
 
 class Injector(object):
@@ -175,6 +180,7 @@ class Injector(object):
     self.fired_log = []       # (point, when, exc, tag)
     self.on_fire = None
     self.depth = {}           # thread ident -> nesting depth inside the pipeline
+    self.convs = {}           # thread ident -> number of pipeline entries so far
     self.scoped = False
     for key in (SCOPE_KEYS if scope_keys is None else scope_keys):
       self._install_scope(key)
@@ -186,9 +192,12 @@ class Injector(object):
     holder, name, fn = r
     depth = self.depth
 
+    convs = self.convs
+
     def scope(*a, **k):
       ident = _thread.get_ident()
       depth[ident] = depth.get(ident, 0) + 1
+      convs[ident] = convs.get(ident, 0) + 1
       try:
         return fn(*a, **k)
       finally:
@@ -225,6 +234,11 @@ class Injector(object):
       if faults and (inj.depth.get(ident) or not inj.scoped):
         for f in faults:
           if f.active and not f.fired and (f.ident is None or f.ident == ident):
+            if f.conv_k is not None:
+              if f.conv_base is None:
+                f.conv_base = inj.convs.get(ident, 0) - 1
+              if inj.convs.get(ident, 0) - f.conv_base != f.conv_k:
+                continue
             f.calls += 1
             if f.calls == f.nth and hit is None:
               hit = f
